@@ -90,6 +90,7 @@ def analyse(pid, repo, tier='quick'):
     """run the rules of one property on `repo`; returns the Report (not finished, nothing printed)"""
     rep = report.Report(pid, tier, 0)
     mod = importlib.import_module('cstlsa.rules.' + pid.lower())
+    m = None
     try:
         m = model.Model(config='release', repo=repo, want_inl=(pid != 'C18'))
         mod.run(m, rep, tier)
@@ -97,6 +98,10 @@ def analyse(pid, repo, tier='quick'):
         rep.analysis_broken('model: %s' % e)
     except Exception:
         rep.analysis_broken('internal error: ' + traceback.format_exc()[-1500:])
+    finally:
+        # the model's scratch directory is only needed while the rules run (a matrix builds hundreds of models)
+        if m is not None:
+            shutil.rmtree(m.work, ignore_errors=True)
     return rep
 
 
